@@ -86,7 +86,45 @@ let judge _id (c : cursor) (r : cursor) : bool * string =
               | Some (ma, mid) ->
                 if int_of_nat ma <> a || int_of_nat mid <> nid then disagree "policy_step" "POMDP::Policy::sampleAction(id,o,h)" "model and implementation follow different links")
             !steps
-        end) bs;
+        end;
+        (* the rest of POMDP::Policy's public interface *)
+        expect r "P";
+        let gh = next_int r in let go = next_int r in let sa = next_int r in
+        let hl = next_int r in let al = next_int r in let idl = next_int r in
+        let psite = "POMDP::Policy::getActionProbability" in
+        if gh <> hh || go <> nobs then oracle_fail "policy_dims" "POMDP::Policy::getH" "getH / getO differ from the value function's";
+        let probs = List.init (int_of_nat m.pm.nA) (fun _ ->
+            let p1 = float_of_string (next r) in let p2 = float_of_string (next r) in let p3 = float_of_string (next r) in (p1, p2, p3)) in
+        (* O: each getActionProbability is the indicator of the action sampleAction returns at that horizon *)
+        let top_a = if hh >= 1 then a0 else sa in
+        (* the probabilities are those of the model (extracted policy_prob) when the model picks the same entries *)
+        let qf x = q_of_float x in
+        List.iteri (fun x (p1, p2, p3) ->
+            let ind y = if x = y then 1.0 else 0.0 in
+            if p1 <> ind sa then oracle_fail "policy_action_probability" psite "getActionProbability(b,a) is not the indicator of sampleAction(b)";
+            if p2 <> ind top_a then oracle_fail "policy_action_probability" psite "getActionProbability(b,a,H) is not the indicator of sampleAction(b,H)";
+            if p3 <> ind al then oracle_fail "policy_action_probability" psite "getActionProbability(b,a,h) is not the indicator of sampleAction(b,h)";
+            (match policy_first vf (nat_of_int hl) b with
+             | Some (ma, _) when int_of_nat ma = al ->
+               if not (q_eq (policy_prob vf (nat_of_int hl) b (nat_of_int x)) (qf p3)) then disagree "policy_prob" psite "model and implementation probabilities differ"
+             | _ -> ())) probs;
+        let tot = List.fold_left (fun acc (p1, _, _) -> acc +. p1) 0.0 probs in
+        if tot <> 1.0 then oracle_fail "policy_action_probability" psite "action probabilities do not sum to one";
+        if hh >= 1 && sa <> a0 then oracle_fail "policy_action_probability" "POMDP::Policy::sampleAction(b)" "sampleAction(b) differs from sampleAction(b, H)";
+        (* C: the lower-horizon decision is the model's (ties within rounding accepted as above) *)
+        (match policy_first vf (nat_of_int hl) b with
+         | None -> disagree "policy_first" "POMDP::Policy::sampleAction" "model access out of range"
+         | Some (ma, mid) ->
+           let l = List.nth vf hl in
+           if idl < 0 || idl >= List.length l then oracle_fail "first_action_attains" "POMDP::Policy::sampleAction" "id out of range";
+           let ei = List.nth l idl in
+           if int_of_nat ei.act <> al then oracle_fail "first_action_attains" "POMDP::Policy::sampleAction" "action differs from the chosen entry's";
+           if int_of_nat mid <> idl then begin
+             let dotb (e : ventry) = List.fold_left2 (fun acc x y -> q_add acc (q_mul x y)) q_zero e.vals b in
+             if not (q_close ~atol:(q_of_ints 1 1000000000000) ~rtol:(q_of_ints 1 1000000000000) (dotb (List.nth l (int_of_nat mid))) (dotb ei)) then
+               disagree "policy_first" "POMDP::Policy::sampleAction" "model and implementation pick different entries at a lower horizon"
+           end;
+           ignore ma)) bs;
     (* O1b: the horizon-0 entries promise nothing, so that h executed steps earn the whole promise *)
     (match vf with
      | v0 :: _ -> List.iter (fun e -> List.iter (fun x -> if not (q_eq x q_zero) then
